@@ -1115,6 +1115,8 @@ class PolyhedralTermList(TermList):  # noqa: WPS338
             if res["status"] == 2:
                 is_refinement = False
                 break
+            elif res["status"] != 0:
+                raise ValueError("Cannot decide containment")
             else:
                 if -res["fun"] <= b_temp:  # noqa: WPS309
                     logging.debug("Redundant constraint")
@@ -1309,8 +1311,8 @@ class PolyhedralTermList(TermList):  # noqa: WPS338
         logging.debug(new_context_cons)
         logging.debug(objective)
         res = linprog(c=objective, A_ub=new_context_mat, b_ub=new_context_cons, bounds=(None, None))
-        if res["status"] in {2, 3}:
-            # unbounded
+        if res["status"] != 0:
+            # infeasible, unbounded, or the solver gave up
             # return term.copy()
             raise ValueError("Tactic 2 did not succeed")
         replacement = polarity * res["fun"]
